@@ -30,7 +30,7 @@ func init() {
 		"fmt.Sprintf":                        extFreshStr,
 		"strings.Contains":                   extStrPred("s.contains"),
 		"strings.Compare":                    extStrCompare,
-		"(time.Time).IsZero":                 extTimeFn("t.iszero", SBool),
+		"(time.Time).IsZero":                 extTimeFn("T.iszero", SBool),
 		"(time.Time).Unix":                   extTimeUnix,
 		"(time.Time).UnixNano":               extTimeUnixNano,
 		"(time.Time).Nanosecond":             extTimeNanosecond,
@@ -205,7 +205,10 @@ func extTimeUnix(m *Machine, c *Config, call ssa.CallInstruction, args []Value) 
 }
 
 func extTimeNanosecond(m *Machine, c *Config, call ssa.CallInstruction, args []Value) []extOutcome {
-	return []extOutcome{{cond: TTrue, res: []Value{app(SBV64, "t.nsec", args[0].(Term))}}}
+	t := args[0].(Term)
+	ns := app(SBV64, "t.nsec", t)
+	c.st.assume(And(BVSge(ns, BVLitI(0, 64)), BVSlt(ns, BVLitI(1000000000, 64)))) // type invariant of time.Time
+	return []extOutcome{{cond: TTrue, res: []Value{ns}}}
 }
 
 // UnixNano: sec*1e9+nsec when representable in int64; undefined (unconstrained) otherwise.
@@ -216,8 +219,28 @@ func extTimeUnixNano(m *Machine, c *Config, call ssa.CallInstruction, args []Val
 	return []extOutcome{{cond: TTrue, res: []Value{r}}}
 }
 
+// time.Unix(sec, nsec): normalises nsec into [0,1e9) exactly as the standard library does.
 func extTimeMake(m *Machine, c *Config, call ssa.CallInstruction, args []Value) []extOutcome {
-	return []extOutcome{{cond: TTrue, res: []Value{app(STime, "T.unix", args[0].(Term), args[1].(Term))}}}
+	sec, nsec := args[0].(Term), args[1].(Term)
+	e9 := BVLitI(1000000000, 64)
+	zero := BVLitI(0, 64)
+	mk := func(s, n Term) Value { return app(STime, "mktime", s, n) }
+	inRange := And(BVSge(nsec, zero), BVSlt(nsec, e9))
+	if inRange.IsConst() && inRange.C.Sign() != 0 {
+		return []extOutcome{{cond: TTrue, res: []Value{mk(sec, nsec)}}}
+	}
+	n, _, ok := m.divConst(c.st, nsec, e9, true)
+	if !ok {
+		n = BVSDiv(nsec, e9)
+	}
+	s2 := BVAdd(sec, n)
+	ns2 := BVSub(nsec, BVMul(n, e9))
+	neg := BVSlt(ns2, zero)
+	return []extOutcome{
+		{cond: inRange, res: []Value{mk(sec, nsec)}},
+		{cond: And(Not(inRange), neg), res: []Value{mk(BVSub(s2, BVLitI(1, 64)), BVAdd(ns2, e9))}},
+		{cond: And(Not(inRange), Not(neg)), res: []Value{mk(s2, ns2)}},
+	}
 }
 
 // ---- bytes.Buffer: content is a token stream (ghost cell of the buffer object) ----
